@@ -19,14 +19,16 @@ FILES = ['regions/core/bounding_box.py']
 RULE = ('exhaustive enumeration of all boxes with corners in a stated integer range (including empty '
         'boxes), all ordered pairs, all ordered triples over a smaller range, all image shapes 0..7 x 0..7 '
         'per box, float rectangles on the 1/8-pixel lattice and at 2^k / 1e9 boundaries, and a fixed '
-        'catalogue of magnitudes x numpy integer types; a case is non-trivial when the operation has a '
+        'catalogue of magnitudes x numpy integer types (pairs), all boxes with corners in [0,5] / [-2,5] given as scalars of each '
+        'of 10 numpy integer types (signed and unsigned) x all image shapes (shape, centre, extent, overlap slices); a case is non-trivial when the operation has a '
         'non-degenerate answer (pair: both boxes non-empty and they overlap partially; slices: overlap '
         'non-empty and clipped; from_float: an edge falls exactly on a rounding boundary)')
 BOUNDS = {
     'quick': 'pairs over corners [-3,4] (1296 boxes, 1.68M ordered pairs); triples over [-1,2] (1M); '
-             'slices: all 4356 boxes of [-4,6] x 64 image shapes; from_float: 1/8 lattice on [-3,3]',
+             'slices: all 4356 boxes of [-4,6] x 64 image shapes; from_float: 1/8 lattice on [-3,3]; typed boxes: 10 corner types x '
+             'all boxes of [0,5] (unsigned) / [-2,5] (signed) x 25 image shapes',
     'thorough': 'pairs over corners [-4,6] (4356 boxes, 19.0M ordered pairs); triples over [-2,3] '
-                '(441 boxes, 85.8M); slices as quick plus shapes to 9; from_float: 1/8 lattice on [-5,5]',
+                '(441 boxes, 85.8M); slices as quick plus shapes to 9; from_float: 1/8 lattice on [-5,5]; typed boxes as quick x 49 image shapes',
 }
 ASSUMPTIONS = ['numpy integer indexing semantics are trusted when the returned slices are applied to '
                'coordinate arrays', 'corner magnitudes are bounded by the stated ranges']
@@ -180,9 +182,19 @@ def check_triple(res, a, b, c, A=None, B=None, C=None):
 
 
 # --------------------------------------------------------- single-box stuff --
-def check_box(res, a):
+def _mkt(a, tname):
+    """The box with every corner given as a scalar of the numpy integer type ``tname`` (None: python ints)."""
+    if tname is None:
+        return _mk(a)
+    from regions import RegionBoundingBox
+    return RegionBoundingBox(*[_conv(v, tname) for v in a])
+
+
+def check_box(res, a, tname=None):
     case = {'op': 'box', 'a': list(a)}
-    A = _mk(a)
+    if tname:
+        case['t'] = tname
+    A = _mkt(a, tname)
     nx, ny = a[1] - a[0], a[3] - a[2]
     ok, s = _call(res, lambda: A.shape)
     if not ok or tuple(int(v) for v in s) != (ny, nx):
@@ -207,10 +219,12 @@ def check_box(res, a):
     res.outcome(('box', nx > 0, ny > 0))
 
 
-def check_slices(res, a, shape, coords=None):
+def check_slices(res, a, shape, coords=None, tname=None):
     case = {'op': 'slices', 'a': list(a), 'shape': list(shape)}
+    if tname:
+        case['t'] = tname
     ny, nx = shape
-    A = _mk(a)
+    A = _mkt(a, tname)
     ok, r = _call(res, lambda: A.get_overlap_slices((ny, nx)))
     if not ok:
         _V(res, 'slices_raise', case, f'get_overlap_slices raised {r}')
@@ -320,6 +334,8 @@ def check_ctor(res, idx):
 
 _MAGS = [0, 1, -1, 7, -7, 2 ** 15 - 1, -2 ** 15, 2 ** 31 - 1, -2 ** 31, 10 ** 9, -10 ** 9]
 _NPTYPES = ['int8', 'int16', 'int32', 'int64', 'intp', 'uint8', 'pyint']
+# corner types of the single-box part (shape, centre, extent, overlap slices): every numpy integer type
+_BOXTYPES = ['int8', 'int16', 'int32', 'int64', 'intp', 'longlong', 'uint8', 'uint16', 'uint32', 'uint64']
 
 
 def _fits(v, tname):
@@ -400,6 +416,8 @@ def shards(tier, seed):
     out.append({'kind': 'from_float_big'})
     out.append({'kind': 'ctor'})
     out.append({'kind': 'typed'})
+    for t in _BOXTYPES:
+        out.append({'kind': 'typed_boxes', 't': t, 'maxshape': 4 if tier == 'quick' else 6})
     return out
 
 
@@ -509,6 +527,19 @@ def run_shard(shard, tier, seed):
                         res.evaluations += 1
                         check_typed_pair(res, a, b, ta, tb)
         res.sample({'op': 'typed', 'a': [-3, 0, -2, 1], 'b': [-2, 2, -4, 0], 'ta': 'int8', 'tb': 'int64'})
+    elif k == 'typed_boxes':
+        t = shard['t']
+        lo = 0 if t.startswith('u') else -2
+        shapes = [(ny, nx) for ny in range(0, shard['maxshape'] + 1) for nx in range(0, shard['maxshape'] + 1)]
+        for a in _boxes(lo, 5):
+            res.states += 1
+            res.evaluations += 1
+            res.axis('corner_type', t)
+            check_box(res, a, tname=t)
+            for shp in shapes:
+                res.evaluations += 1
+                check_slices(res, a, shp, tname=t)
+        res.sample({'op': 'slices', 'a': [1, 4, 0, 2], 'shape': [3, 3], 't': t})
     else:
         raise ValueError(k)
     return res
@@ -522,9 +553,9 @@ def replay(case):
     elif op == 'triple':
         check_triple(res, tuple(case['a']), tuple(case['b']), tuple(case['c']))
     elif op == 'box':
-        check_box(res, tuple(case['a']))
+        check_box(res, tuple(case['a']), tname=case.get('t'))
     elif op == 'slices':
-        check_slices(res, tuple(case['a']), tuple(case['shape']))
+        check_slices(res, tuple(case['a']), tuple(case['shape']), tname=case.get('t'))
     elif op == 'from_float':
         check_from_float(res, tuple(case['rect']))
     elif op == 'ctor':
